@@ -1,8 +1,139 @@
-(* C05 — bump semantics follow the documented part rules. (theorems are added as they are proved) *)
-From Coq Require Import List NArith ZArith.
-From BV Require Import Lib.PyStr Model.V2 Model.Cli.
+(* C05 — bump semantics follow the documented part rules. *)
+From Coq Require Import List Bool NArith ZArith Arith String Ascii.
+From BV Require Import Lib.PyStr Lib.Calendar Model.Lexid Model.V2 Model.Cli Gen.Tables Proofs.IncrFacts.
 Import ListNotations.
 
-Example C05_smoke : parse_pattern_fields [77;65;74;79;82;46;77;73;78;79;82]%N = Some [n_major; n_minor].
-Proof. vm_compute. reflexivity. Qed.
-Print Assumptions C05_smoke.
+(* everything resettable to the right of the first changed part is reset, nothing else *)
+Theorem C05_reset_items_spec : forall fields old cur,
+  reset_items fields old cur false = inits (after_first_changed old cur fields).
+Proof. exact reset_items_spec. Qed.
+Print Assumptions C05_reset_items_spec.
+
+Theorem C05_reset_items_none_changed : forall fields old cur,
+  (forall f, In f fields -> changed old cur f = false) -> reset_items fields old cur false = [].
+Proof. exact reset_items_none_changed. Qed.
+Print Assumptions C05_reset_items_none_changed.
+
+(* calendar guard *)
+Theorem C05_pin_date_keeps_calendar : forall today v i x,
+  nth_error (cal_list v) i = Some (Some x) -> nth_error (ver_to_cal_info today v) i = Some (Some x).
+Proof. exact pin_date_keeps_calendar. Qed.
+Print Assumptions C05_pin_date_keeps_calendar.
+
+Theorem C05_pin_date_fills_missing : forall today v i, (i < 9)%nat ->
+  nth_error (cal_list v) i = Some None -> nth_error (ver_to_cal_info today v) i = nth_error (cinfo_of_ord today) i.
+Proof. exact pin_date_fills_missing. Qed.
+Print Assumptions C05_pin_date_fills_missing.
+
+Theorem C05_cal_never_backwards : forall old cur_c,
+  let cur := if is_cal_gt (cal_list old) cur_c then old else set_cal old cur_c in
+  List.length cur_c = 9%nat -> is_cal_gt (cal_list old) (cal_list cur) = false.
+Proof. exact cal_never_backwards. Qed.
+Print Assumptions C05_cal_never_backwards.
+
+Theorem C05_is_cal_gt_irrefl : forall l, is_cal_gt l l = false.
+Proof. exact is_cal_gt_irrefl. Qed.
+Print Assumptions C05_is_cal_gt_irrefl.
+
+(* _incr_numeric = apply the flags ([bumped]), then the rollover reset *)
+Theorem C05_incr_numeric_bumped : forall raw old cur fl,
+  incr_numeric raw old cur fl =
+  match bumped cur fl with None => None | Some c => reset_rollover_fields raw old c end.
+Proof. exact incr_numeric_bumped. Qed.
+Print Assumptions C05_incr_numeric_bumped.
+
+Theorem C05_bumped_fields : forall cur fl c, bumped cur fl = Some c ->
+  v_major c = (if f_major fl then v_major cur + 1 else v_major cur)%Z
+  /\ v_minor c = (if f_minor fl then v_minor cur + 1 else v_minor cur)%Z
+  /\ v_patch c = (if f_patch fl then v_patch cur + 1 else v_patch cur)%Z
+  /\ v_inc0 c = (if f_pin_increments fl then v_inc0 cur else v_inc0 cur + 1)%Z
+  /\ v_inc1 c = (if f_pin_increments fl then v_inc1 cur else v_inc1 cur + 1)%Z
+  /\ v_num c = (match f_tag fl with
+                | Some (x :: t) => if eqb_str (x :: t) (v_tag cur)
+                                   then (if f_tag_num fl then v_num cur + 1 else v_num cur) else 0
+                | _ => if f_tag_num fl then v_num cur + 1 else v_num cur
+                end)%Z
+  /\ v_tag c = (match f_tag fl with Some (x :: t) => x :: t | _ => v_tag cur end)
+  /\ (match f_tag fl with
+      | Some (x :: t) => assoc (x :: t) PEP440_TAG_BY_TAG = Some (v_pytag c)
+      | _ => v_pytag c = v_pytag cur
+      end)
+  /\ bump_bid (v_bid cur) = Some (v_bid c)
+  /\ cal_list c = cal_list cur
+  /\ v_githash c = v_githash cur /\ v_hexhash c = v_hexhash cur.
+Proof. exact bumped_fields. Qed.
+Print Assumptions C05_bumped_fields.
+
+(* the SemVer table of the README, for all numbers: pattern MAJOR.MINOR.PATCH *)
+Theorem C05_semver_rules :
+  let raw := [77;65;74;79;82;46;77;73;78;79;82;46;80;65;84;67;72]%N in
+  forall old fl c,
+  f_tag fl = None -> f_tag_num fl = false -> incr_numeric raw old old fl = Some c ->
+  (v_major c, v_minor c, v_patch c) =
+    (if f_major fl then (v_major old + 1, 0, 0)
+     else if f_minor fl then (v_major old, v_minor old + 1, 0)
+     else if f_patch fl then (v_major old, v_minor old, v_patch old + 1)
+     else (v_major old, v_minor old, v_patch old))%Z.
+Proof. exact semver_rules. Qed.
+Print Assumptions C05_semver_rules.
+
+(* --tag-num needs a non-final effective tag *)
+Theorem C05_tag_num_needs_tag : forall today old raw fl d, f_tag_num fl = true ->
+  (match f_tag fl with
+   | Some (x :: t) => eqb_str (x :: t) s_final = true
+   | _ => forall v, parse_version_info today old raw = POk v ->
+          eqb_str (v_tag (if is_cal_gt (cal_list v) (if f_pin_date fl then ver_to_cal_info today v else cinfo_of_ord d)
+                          then v
+                          else set_cal v (if f_pin_date fl then ver_to_cal_info today v else cinfo_of_ord d))) s_final = true
+   end) ->
+  forall s, incr today old raw fl d <> INew s.
+Proof. exact tag_num_needs_tag. Qed.
+Print Assumptions C05_tag_num_needs_tag.
+
+Theorem C05_incr_changes_version : forall today old raw fl d s,
+  incr today old raw fl d = INew s -> s <> old /\ s <> [].
+Proof. exact incr_changes_version. Qed.
+Print Assumptions C05_incr_changes_version.
+
+Theorem C05_incr_rejects_bad_week_pattern : forall today old raw fl d,
+  is_valid_week_pattern raw = false -> incr today old raw fl d = INone.
+Proof. exact incr_rejects_bad_week_pattern. Qed.
+Print Assumptions C05_incr_rejects_bad_week_pattern.
+
+(* ------------------------------------------------------------------ non-vacuity on concrete strings *)
+Fixpoint S' (s : string) : list N :=
+  match s with EmptyString => [] | String c t => N_of_ascii c :: S' t end.
+
+(* SemVer rows: --minor resets PATCH; --major --minor --patch together = --major;
+   the parsed record of 1.2.3 goes to (1,3,0) under --minor --patch *)
+Example C05_ex_semver :
+  let raw := S' "MAJOR.MINOR.PATCH" in
+  incr 740163%Z (S' "1.2.3") raw (mkflags false true false None false false false) 740163%Z = INew (S' "1.3.0")
+  /\ incr 740163%Z (S' "1.2.3") raw (mkflags true true true None false false false) 740163%Z = INew (S' "2.0.0")
+  /\ incr 740163%Z (S' "1.2.3") raw (mkflags false false false None false false false) 740163%Z = INone
+  /\ match parse_version_info 740163%Z (S' "1.2.3") raw with
+     | POk v => match incr_numeric raw v v (mkflags false true true None false false false) with
+                | Some c => Some (v_major c, v_minor c, v_patch c)
+                | None => None
+                end
+     | _ => None
+     end = Some (1, 3, 0)%Z.
+Proof. vm_compute. repeat split; reflexivity. Qed.
+Print Assumptions C05_ex_semver.
+
+(* tags, --tag-num, calendar guard and week-pattern check on concrete versions (today = 2027-07-02) *)
+Example C05_ex_tag_and_calendar :
+  let rawt := S' "MAJOR.MINOR.PATCH[-TAGNUM]" in
+  let fl0 := mkflags false false false None false false false in
+  incr 740163%Z (S' "1.2.3") rawt (mkflags false false false None true false false) 740163%Z = INone
+  /\ incr 740163%Z (S' "1.2.3") rawt (mkflags false false false (Some (S' "final")) true false false) 740163%Z = INone
+  /\ incr 740163%Z (S' "1.2.3-beta1") rawt (mkflags false false false None true false false) 740163%Z = INew (S' "1.2.3-beta2")
+  /\ incr 740163%Z (S' "1.2.3-beta1") rawt (mkflags false false false (Some (S' "rc")) false false false) 740163%Z = INew (S' "1.2.3-rc0")
+  /\ incr 740163%Z (S' "v209901.1001") (S' "vYYYY0M.BUILD") fl0 740163%Z = INew (S' "v209901.1002")
+  /\ incr 740163%Z (S' "v202001.1001") (S' "vYYYY0M.BUILD") fl0 740163%Z = INew (S' "v202707.1002")
+  /\ incr 740163%Z (S' "v202001.1001") (S' "vYYYY0M.BUILD") (mkflags false false false None false false true) 740163%Z
+     = INew (S' "v202001.1002")
+  /\ is_valid_week_pattern (S' "YYYY.VV") = false
+  /\ incr 740163%Z (S' "2020.10") (S' "YYYY.VV") fl0 740163%Z = INone.
+Proof. vm_compute. repeat split; reflexivity. Qed.
+Print Assumptions C05_ex_tag_and_calendar.
